@@ -8,6 +8,7 @@ mod wire;
 mod rp;
 mod gen;
 mod sp;
+mod conn;
 
 use std::collections::HashMap;
 use std::path::PathBuf;
@@ -76,6 +77,13 @@ fn main() {
             sp::run_replay(&prop, args.num("seed", 1), stdin.lock(), args.log(), &mut rep, args.num("threads", 12) as usize);
             rep.finish(args.out().as_deref())
         },
+        "conn-replay" => {
+            let prop = args.get("prop").unwrap_or("C07").to_string();
+            let mut rep = Report::new(&prop);
+            let known: Vec<String> = args.get("known").map(|k| k.split(',').filter(|x| !x.is_empty()).map(str::to_string).collect()).unwrap_or_default();
+            conn::run_replay(&prop, args.num("seed", 1), stdin.lock(), args.log(), &mut rep, args.num("threads", 12) as usize, &known);
+            rep.finish(args.out().as_deref())
+        },
         "sp-trace" => {
             let prop = args.get("prop").unwrap_or("C02").to_string();
             let mut rep = Report::new(&prop);
@@ -103,6 +111,7 @@ fn main() {
                 "rp-bytes" => rp::replay_bytes(&prop, r, &mut rep),
                 "sp-edge" => sp::replay_file(&prop, r, &mut rep),
                 "sp-bytes" => sp::replay_bytes(&prop, r, &mut rep),
+                "conn-beh" => conn::replay_file(&prop, r, &mut rep),
                 "bufsize" => vec_codec::sweep_bufsize(&mut rep, r["n"].as_u64().unwrap_or(0) as usize),
                 k => { eprintln!("replay kind {k} is not supported by this build"); std::process::exit(2) },
             }
